@@ -521,6 +521,9 @@ def run(ctx):
                 cfgs.append(dict(spec=sp, times=times, mode='single', safe=safe, bound=3))
             cfgs.append(dict(spec=sp, times=[0.25 * i for i in range(N + 2)], mode='lineage', safe=False, bound=2,
                              cap=12000 if ctx.quick else 60000))
+        # a grid that starts fine and gets coarser (every time a multiple of the first step)
+        cfgs.append(dict(spec=sp, times=[0.0, 0.25, 0.5, 1.0, 1.5, 2.5], mode='lineage', safe=False, bound=2, cap=6000 if ctx.quick else 30000))
+        cfgs.append(dict(spec=sp, times=[0.0, 0.25, 0.5, 1.0, 1.5, 2.5], mode='single', safe=False, bound=2))
     pmap(run_config, cfgs, ctx, nshards=len(cfgs))
     ctx.bounds = dict(record_trees=len(rec), splitter_cases=len(items), lineage_configs=len(cfgs), cost_bound=max(c_['bound'] for c_ in cfgs))
     ctx.rule = ('E1: (i) PerfectBinomialVolumeSplitter, GeneralVolumeSplitter and LineageVolumeSplitter in every per-species mode combination x '
